@@ -987,16 +987,17 @@ def main(argv=None):
     ck.prove(extra_targets=["Bridge/BridgeMigration.v"],
              gen_kernels=["migration_loop", "migration_names", "migration_init"])
     have_driver = ck.driver()
-    first_bad = None
+    first_bad, first_size = None, None
     for lo in range(0, len(cases), batch):
         part = cases[lo:lo + batch]
         runs = first_runs.result() if lo == 0 else run_cases(part, work)
         verdicts = evaluate(ck, part, runs, have_driver)
-        if first_bad is None:
-            for c, v in zip(part, verdicts):
-                if v and not all(any(k.get("signature") == s for k in ck.known) for s, _ in v):
-                    first_bad = c
-                    break
+        for c, v in zip(part, verdicts):
+            # the case to shrink: the smallest one that fails (fewest events, then fewest constructions)
+            if v and not all(any(k.get("signature") == s for k in ck.known) for s, _ in v):
+                size = (case_events(c), len(c.get("session") or []))
+                if first_bad is None or size < first_size:
+                    first_bad, first_size = c, size
         for r in runs:
             shutil.rmtree(r["xdg"], ignore_errors=True)
     if first_bad is not None and ck.violations:
